@@ -45,6 +45,8 @@ pub mod shims_nondet {
 // (vstd already declares core::time::Duration as an external type)
 pub uninterp spec fn nanos(d: std::time::Duration) -> int;
 
+pub assume_specification<T> [std::mem::drop] (_0: T);
+
 // module tree of the rodbus crate (contents are fragments; every item text comes from /repo)
 pub mod error {
 use vstd::prelude::*;
@@ -468,6 +470,13 @@ pub struct BitIterator<'a> {
 pub struct AddressIterator {
     pub current: u16,
     pub remain: u16,
+}
+#[derive(Clone, Copy, PartialEq, Eq)]
+pub enum ChannelLoggingMode {
+
+    Verbose,
+
+    StateChanges,
 }
 #[derive(Copy, Clone)]
 pub struct RegisterIterator<'a> {
